@@ -575,8 +575,11 @@ impl Parser {
             }
             Some(Lexem::Operator(s)) => {
                 let right = self.parse_add_sub()?;
-                let op = Op::from_with_not(s, not);
-                Ok(Some(Expr::op(left.unwrap(), op.unwrap(), right.unwrap())))
+                let op = match Op::from_with_not(s.clone(), not) {
+                    Some(op) => op,
+                    None => return Err(String::from("Unknown operator: ") + &s),
+                };
+                Ok(Some(Expr::op(left.unwrap(), op, right.unwrap())))
             }
             _ => {
                 self.drop_lexem();
